@@ -59,3 +59,47 @@ pub fn c06_label_octet_display_roundtrip() {
     assert!(sym2.is_word_char());
     assert!(!(out.len == 1 && ends_word(text[0])));
 }
+
+/// Symbol::from_slice_index on every buffer of at most 6 octets and every position (the function looks at no more
+/// than four octets from `pos`): total; None exactly at/after the end; a returned end is > pos, <= len and at most
+/// pos + 4; plain ASCII is read as itself; a decimal escape yields its value
+#[kani::proof]
+pub fn c06_from_slice_index_window_bounded() {
+    let buf: [u8; 6] = kani::any();
+    let n: usize = kani::any();
+    let pos: usize = kani::any();
+    kani::assume(n <= 6 && pos <= 8);
+    let s = &buf[..n];
+    let r = Symbol::from_slice_index(s, pos);
+    kani::cover!(matches!(r, Ok(Some((Symbol::DecimalEscape(_), _)))));
+    kani::cover!(r.is_err());
+    match r {
+        Ok(None) => assert!(pos >= n),
+        Ok(Some((sym, end))) => {
+            assert!(pos < n && end > pos && end <= n && end <= pos + 4);
+            let c1 = s[pos];
+            if c1 < 128 && c1 != b'\\' {
+                assert!(sym == Symbol::Char(c1 as char) && end == pos + 1);
+            }
+            if let Symbol::DecimalEscape(v) = sym {
+                assert!(end == pos + 4 && c1 == b'\\');
+                let d = |x: u8| (x - b'0') as u32;
+                assert!(v as u32 == d(s[pos + 1]) * 100 + d(s[pos + 2]) * 10 + d(s[pos + 3]));
+            }
+            if let Symbol::SimpleEscape(v) = sym {
+                assert!(end == pos + 2 && c1 == b'\\' && v == s[pos + 1] && !(v < 0x20 || v == 0x7F) && !(v >= b'0' && v <= b'9'));
+            }
+        }
+        Err(_) => assert!(pos < n),
+    }
+}
+
+/// core's ASCII classification used by the reader (assumed in units/symbols): every octet
+#[kani::proof]
+pub fn c06_core_ascii_classes_match() {
+    let b: u8 = kani::any();
+    assert!(b.is_ascii_control() == (b < 0x20 || b == 0x7F));
+    assert!(b.is_ascii_digit() == (b >= 0x30 && b <= 0x39));
+    let c: char = kani::any();
+    assert!(c.is_ascii() == ((c as u32) < 128));
+}
